@@ -59,7 +59,14 @@ def r_conversion_history(run, tree):
     qs.check_to_stack(run, tree, only=("history",))
 
 
-RULES = [r1_table, r2_strict_conversion, r3_bool_dimensionless, r4_end_to_end, r5_registry, r6_operands, r_conversion_history]
+def r_histories(run, tree):
+    run.rule("C07.R8", "histories: a comparison; a mutator (in-place operator, buffer edit, unit re-assignment); the same comparison again - the answer is the "
+             "comparison of the physical quantities as they are NOW, operands untouched; python 0 against a dimensional Array raises; x == x looks at the values",
+             "D7 fold of the whole Array class over operation sequences", "", floor=4)
+    qs.check_array_history_space(run, tree, "quick", family="compare")
+
+
+RULES = [r1_table, r2_strict_conversion, r3_bool_dimensionless, r4_end_to_end, r5_registry, r6_operands, r_conversion_history, r_histories]
 
 
 def t_pair_space(run, tree):
